@@ -1,4 +1,4 @@
-import Ogorek.Lemmas.RelocStep
+import Ogorek.Lemmas.RelocErr
 import Ogorek.Props.C11Enc
 
 /-!
@@ -86,6 +86,106 @@ theorem reloc_loop (mc : MCfg) : ∀ (fuel insn : Nat) (A B : DState) (inp : Byt
             refine ⟨B', ?_, hrel⟩
             cases i <;> simp [Insn.isStop] at hstop <;> simp only [heB] <;> exact hb
 end
+
+/-- Does the instruction sequence hold a memo fetch (GET / BINGET / LONG_BINGET)? -/
+def hasGet : Nat → Bytes → Bool
+  | 0, _ => false
+  | fuel + 1, inp =>
+    match readByte inp with
+    | .error _ => false
+    | .ok (key, r) =>
+      match parseArg key r with
+      | .error _ => false
+      | .ok (.stop, _) => false
+      | .ok (i, rest) => i.isGet || hasGet fuel rest
+
+section
+variable {dh db : Nat} {H0 : List HObj}
+
+/-- The error direction: a pickle without memo fetches and MEMOIZE that fails alone fails the same way anywhere. -/
+theorem reloc_loop_err (mc : MCfg) : ∀ (fuel insn : Nat) (A B : DState) (inp : Bytes) (e : DErr) (A' : DState) (rest : Bytes),
+    Reloc dh db H0 A B → hasMemoize fuel inp = false → hasGet fuel inp = false →
+    decodeLoop mc none fuel insn A inp = (.error e, A', rest) →
+    ∃ B', decodeLoop mc none fuel insn B inp = (.error e, B', rest) := by
+  intro fuel
+  induction fuel with
+  | zero => intro insn A B inp e A' rest _ _ _ h; simp only [decodeLoop, Prod.mk.injEq] at h ⊢; exact ⟨B, h.1, rfl, h.2.2⟩
+  | succ fuel ih =>
+    intro insn A B inp e A' rest hr hm hgt h
+    unfold decodeLoop at h ⊢
+    unfold hasMemoize at hm
+    unfold hasGet at hgt
+    cases hrb : readByte inp with
+    | error e0 =>
+      rw [hrb] at h
+      simp only [Prod.mk.injEq] at h ⊢
+      exact ⟨B, h.1, rfl, h.2.2⟩
+    | ok kr =>
+      obtain ⟨key, r⟩ := kr
+      rw [hrb] at h hm hgt
+      simp only at h hm hgt ⊢
+      cases hp : parseArg key r with
+      | error e0 =>
+        rw [hp] at h
+        simp only [Prod.mk.injEq] at h ⊢
+        exact ⟨B, h.1, rfl, h.2.2⟩
+      | ok ir =>
+        obtain ⟨i, rest'⟩ := ir
+        rw [hp] at h hm hgt
+        by_cases hstop : i.isStop = true
+        · cases i <;> simp [Insn.isStop] at hstop
+          simp only at h ⊢
+          cases hA : A.stack with
+          | nil =>
+            have hs := hr.stack
+            rw [hA] at hs
+            simp only [shiftL] at hs
+            simp only [popUser, Ogorek.pop, hA, hs, bind, Except.bind, Prod.mk.injEq] at h ⊢
+            exact ⟨B, h.1, rfl, h.2.2⟩
+          | cons x s =>
+            have hs := hr.stack
+            rw [hA] at hs
+            simp only [shiftL] at hs
+            simp only [popUser, Ogorek.pop, hA, hs, userOK_shift, bind, Except.bind, pure, Except.pure] at h ⊢
+            cases hu : userOK x with
+            | error e0 =>
+              rw [hu] at h
+              simp only [Prod.mk.injEq] at h ⊢
+              exact ⟨B, h.1, rfl, h.2.2⟩
+            | ok u => rw [hu] at h; simp at h
+        · simp only [Bool.not_eq_true] at hstop
+          have hnm : i.isMemoize = false ∧ hasMemoize fuel rest' = false := by
+            cases i <;> simp_all [Insn.isStop, Insn.isMemoize]
+          have hng : i.isGet = false ∧ hasGet fuel rest' = false := by
+            cases i <;> simp_all [Insn.isStop, Insn.isGet]
+          cases he : exec mc none i (insn + 1) A with
+          | error e0 =>
+            have heB := reloc_step_err mc i (insn + 1) hr hng.1 he
+            have key : (Except.error e0, A, rest') = ((Except.error e, A', rest) : (M GoVal) × DState × Bytes) := by
+              cases i <;> simp [Insn.isStop] at hstop <;> simpa only [he] using h
+            simp only [Prod.mk.injEq] at key
+            refine ⟨B, ?_⟩
+            cases i <;> simp [Insn.isStop] at hstop <;> simp only [heB, key.1, key.2.2]
+          | ok A1 =>
+            obtain ⟨B1, heB, hr1⟩ := reloc_step mc i (insn + 1) hr hnm.1 he
+            have key : decodeLoop mc none fuel (insn + 1) A1 rest' = (.error e, A', rest) := by
+              cases i <;> simp [Insn.isStop] at hstop <;> simpa only [he] using h
+            obtain ⟨B', hb⟩ := ih (insn + 1) A1 B1 rest' e A' rest hr1 hnm.2 hng.2 key
+            refine ⟨B', ?_⟩
+            cases i <;> simp [Insn.isStop] at hstop <;> simp only [heB] <;> exact hb
+end
+
+/-- **C11 (the error, too).** A pickle that uses neither MEMOIZE nor a memo fetch and FAILS on a fresh Decoder fails with the same
+    error, after the same bytes, on a Decoder in any state. -/
+theorem C11_relocate_err (mc : MCfg) (st : DState) (hn : 1 ≤ st.nbig) (p : Bytes) (e : DErr) (stA : DState) (rest : Bytes)
+    (hm : hasMemoize (p.length + 1) p = false) (hg : hasGet (p.length + 1) p = false)
+    (h : decode mc none {} p = (.error e, stA, rest)) :
+    ∃ stB, decode mc none st p = (.error e, stB, rest) := by
+  unfold decode at h ⊢
+  refine reloc_loop_err (dh := st.heap.length) (db := st.nbig - 1) (H0 := st.heap) mc (p.length + 1) 0 _ _ p e stA rest ?_ hm hg h
+  refine ⟨rfl, rfl, ⟨st.memo, by simp⟩, by simp, rfl, ?_⟩
+  show st.nbig = 1 + (st.nbig - 1)
+  omega
 
 /-- **C11 (a pickle decodes the same wherever it stands).** -/
 theorem C11_relocate (mc : MCfg) (st : DState) (hn : 1 ≤ st.nbig) (p : Bytes) (v : GoVal) (stA : DState) (rest : Bytes)
